@@ -132,10 +132,18 @@ fn gen_pattern(u: &mut Unstructured, kind: Kind, v: Inst, off: i32) -> arbitrary
         if u.coin(1, 2)? {
             shape = 3 + u.below(2)?;
         }
-        if shape >= 1 {
+        // one time in eight the time fields are present or absent independently of each other
+        // (a period marker without an hour, minutes without hours, a fraction without seconds):
+        // every field is still unambiguous in text, absent ones default to zero
+        let free = u.coin(1, 8)?;
+        let (has_hour, has_min, has_sec, has_sub) = if free { (u.coin(1, 2)?, u.coin(1, 2)?, u.coin(1, 2)?, u.coin(1, 3)?) } else { (shape >= 1, shape >= 2, shape >= 3, shape >= 4) };
+        if free && !has_hour && u.coin(2, 3)? {
+            fields.push(fld('a', 1 + u.below(6)? as usize));
+        }
+        if has_hour {
             let style = u.below(4)?;
             let hw = 1 + u.below(3)? as usize;
-            let period_sym = if shape >= 3 && u.coin(1, 2)? { 'b' } else { 'a' };
+            let period_sym = if has_min && has_sec && u.coin(1, 2)? { 'b' } else { 'a' };
             let pw = 1 + u.below(6)? as usize;
             match style {
                 0 => fields.push(fld('H', hw)),
@@ -159,13 +167,13 @@ fn gen_pattern(u: &mut Unstructured, kind: Kind, v: Inst, off: i32) -> arbitrary
                 fields.push(fld(if u.coin(1, 2)? { 'h' } else { 'K' }, 1 + u.below(3)? as usize));
             }
         }
-        if shape >= 2 {
+        if has_min {
             fields.push(fld('m', 1 + u.below(3)? as usize));
         }
-        if shape >= 3 {
+        if has_sec {
             fields.push(fld('s', 1 + u.below(3)? as usize));
         }
-        if shape >= 4 {
+        if has_sub {
             fields.push(fld('n', 1 + u.below(6)? as usize));
         }
         // zone
@@ -337,13 +345,17 @@ impl Prop for RoundTrip {
             cx.nt("12h_field_next_to_a_24h_field");
         }
         if period.is_some() && !any_hour {
-            return Verdict::Skip("outside the coherent grammar: period without hour");
+            if present(t, 'b').is_some() {
+                // 11:00:00 prints "AM 0 0", which reads back as 00:00:00 = "midnight"
+                return Verdict::Skip("outside the unambiguous grammar: b without an hour field");
+            }
+            cx.nt("period_without_an_hour_field");
         }
         if present(t, 'b').is_some() && !(pmin.is_some() && psec.is_some()) {
             return Verdict::Skip("outside the coherent grammar: b without minute and second");
         }
         if (pmin.is_some() && !any_hour) || (psec.is_some() && pmin.is_none()) || (pn.is_some() && psec.is_none()) {
-            return Verdict::Skip("outside the coherent grammar: finer time field without the coarser one");
+            cx.nt("finer_time_field_without_the_coarser_one");
         }
         let date_full = py.is_some() && py != Some(2) && ((pm.is_some() && pd.is_some()) || pdd.is_some());
         if pdd.is_some() && (py.is_none() || pm.is_some() || pd.is_some()) {
@@ -496,8 +508,26 @@ impl Prop for RoundTrip {
         if c.kind != Kind::Time && !has_date && local_date != (1, 1, 1) {
             return fail("c12.default_date", format!("no date field => 0001-01-01 ({})", what), format!("{:?}", local_date));
         }
-        if c.kind != Kind::Date && !any_hour && local_tod != 0 {
-            return fail("c12.default_time", format!("no time field => 00:00:00 ({})", what), format!("{} ns", local_tod));
+        if c.kind != Kind::Date {
+            // every time field that is present comes back, every absent one is zero (a period
+            // marker without an hour field stands for 00:00 or 12:00)
+            let digits_unit: i64 = match pn {
+                Some(1) => 100_000_000,
+                Some(2) => 10_000_000,
+                Some(4) => 1_000,
+                Some(5) => 1,
+                Some(_) => 1_000_000,
+                None => 1_000_000_000,
+            };
+            let hour = if hour_ok { f.hour as i64 } else if period.is_some() && f.hour >= 12 { 12 } else { 0 };
+            let want_tod = hour * 3_600_000_000_000
+                + if pmin.is_some() { f.minute as i64 * 60_000_000_000 } else { 0 }
+                + if psec.is_some() { f.second as i64 * 1_000_000_000 } else { 0 }
+                + if pn.is_some() { f.subsec as i64 / digits_unit * digits_unit } else { 0 };
+            if local_tod != want_tod {
+                let sig = if !any_hour && pmin.is_none() && psec.is_none() && pn.is_none() && period.is_none() { "c12.default_time" } else { "c12.time_fields_differ" };
+                return fail(sig, format!("time of day {} ns (present fields kept, absent fields zero) for {}", want_tod, what), format!("{} ns", local_tod));
+            }
         }
         if c.kind != Kind::Date && zone.is_none() && got_off != Some(0) {
             return fail("c12.default_offset", format!("no zone field => UTC ({})", what), format!("{:?}", got_off));
